@@ -13,8 +13,13 @@ def entry_of(path):
         return None
     return eval(m.group(1), {})
 
+# only properties the integrator has accepted (one id per line in ready.txt) are claimed
+READY = set(open(os.path.join(VERIF, "ready.txt")).read().split())
 checks, missing = [], []
 for pid in ALL:
+    if pid not in READY:
+        missing.append(pid)
+        continue
     path = os.path.join(VERIF, "harness", "props", pid.lower() + ".py")
     e = entry_of(path) if os.path.exists(path) else None
     if e is None:
